@@ -387,7 +387,7 @@ def modifyEomCommit (s : SeqState) (n : ChName) (c : ChanState) (e : EomIn) (det
         if e.corr then
           match (s2.getChan n).bind (·.slots.getLast?) with
           | some buf =>
-            s2.phaseShift (-(oldDrift.calc buf.ti + newDrift.calc buf.tf)) buf.targets c.cfg.basis
+            s2.phaseShift (-(oldDrift.calc (max buf.ti 0) + newDrift.calc buf.tf)) buf.targets c.cfg.basis
           | none => fail s2 .noTarget
         else done s2
       store (.modifyEom n { e with optimal := detOff }) r
